@@ -1161,6 +1161,7 @@ func ruleRecover(rule string) RuleFn {
 				// store PanicError into named result
 				cell := namedResultCell(par)
 				okStore := false
+				okNil := false
 				an.Instrs(fn, func(i ssa.Instruction) {
 					st, ok := i.(*ssa.Store)
 					if !ok || freeVarRoot(st.Addr) != ssa.Value(cell) {
@@ -1173,12 +1174,46 @@ func ruleRecover(rule string) RuleFn {
 					if an.Resolve(fieldStore(al, "Panic")) != ssa.Value(k) {
 						return
 					}
-					g := an.NewGates().AddEdges(an.EdgesWhere(fn, an.FactIs("(recover() != nil)"))...)
-					if hit, _ := an.PathTo(fn, nil, an.IsInstr(st), g); hit == nil && g.Len() > 0 {
+					// "did it panic": recover() != nil, or - recover() returns nil for panic(nil) in programs built with
+					// GODEBUG=panicnil=1, the default for a main module that declares go <= 1.20 - the user function
+					// did not return: a captured boolean that is set only after the call, on every normal way out of it
+					rec := an.EdgesWhere(fn, an.FactIs("(recover() != nil)"))
+					notReturned := an.EdgesWhere(fn, func(ft an.Fact) bool {
+						v := ft.Cond
+						neg := ft.Neg
+						for {
+							if u, ok := v.(*ssa.UnOp); ok && u.Op == token.NOT {
+								v, neg = u.X, !neg
+								continue
+							}
+							break
+						}
+						ld, ok := v.(*ssa.UnOp)
+						if !ok || ld.Op != token.MUL || !neg {
+							return false
+						}
+						if _, isFV := ld.X.(*ssa.FreeVar); !isFV {
+							return false
+						}
+						al, ok := freeVarRoot(ld.X).(*ssa.Alloc)
+						return ok && setOnlyAfterReturn(par, al, m.sink)
+					})
+					g := an.NewGates().AddEdges(rec...).AddEdges(notReturned...)
+					if hit, _ := an.PathTo(fn, nil, an.IsInstr(st), g); hit == nil && len(rec) > 0 {
 						okStore = true
 					}
+					// the nil case: from recover() == nil the store is still reachable (under "did not return")
+					for _, e := range an.EdgesWhere(fn, an.FactIs("(recover() == nil)", "!(recover() != nil)")) {
+						first := e.From.Succs[e.Succ].Instrs[0]
+						if first == ssa.Instruction(st) {
+							okNil = true
+						} else if hit, _ := an.PathTo(fn, first, an.IsInstr(st), nil); hit != nil && len(notReturned) > 0 {
+							okNil = true
+						}
+					}
 				})
-				c.Check(okStore, rule, cons, "deferred under recoverFromPanics, before the call, stores PanicError{Panic: recover()} into the error result", "the closure does not store PanicError{Panic: <recover value>} into the executor's named error result under recover() != nil", k, nil)
+				c.Check(okStore, rule, cons, "deferred under recoverFromPanics, before the call, stores PanicError{Panic: recover()} into the error result", "the closure does not store PanicError{Panic: <recover value>} into the executor's named error result under recover() != nil (or under a flag that says the function did not return)", k, nil)
+				c.Check(okNil, rule, "panic(nil) in "+an.ShortName(par)+" is a panic", "a nil recover() value counts as a panic when the function did not return", "the handler decides by recover() != nil alone: where recover() returns nil for panic(nil) (GODEBUG=panicnil=1, the default for a main module declaring go <= 1.20 - this module declares go 1.20) a user function that panics with nil is taken to have returned normally: its results are invalid reflect.Values, a group member vanishes without an error, Invoke of a function that panicked returns nil, and the callback reports success", k, nil)
 			})
 		}
 		c.Floor(rule, "recover() sites", n, 3)
@@ -1517,4 +1552,43 @@ func deref(t types.Type) types.Type {
 		return p.Elem()
 	}
 	return t
+}
+
+// setOnlyAfterReturn: the local boolean al of executor par starts false and becomes true only after the
+// user-function call `sink` returned: every store is a constant, no store of true is reachable without passing the
+// sink, and every normal return after the sink passes a store of true.
+func setOnlyAfterReturn(par *ssa.Function, al *ssa.Alloc, sink ssa.Instruction) bool {
+	var trues []ssa.Instruction
+	ok := true
+	for _, r := range an.Referrers(al) {
+		st, isStore := r.(*ssa.Store)
+		if !isStore || st.Addr != ssa.Value(al) {
+			continue
+		}
+		k, isConst := st.Val.(*ssa.Const)
+		if !isConst || k.Value == nil {
+			ok = false
+			continue
+		}
+		if k.Value.String() == "true" {
+			if st.Parent() != par {
+				ok = false
+			}
+			trues = append(trues, st)
+		}
+	}
+	if !ok || len(trues) == 0 || sink == nil {
+		return false
+	}
+	for _, t := range trues {
+		if hit, _ := an.PathTo(par, nil, an.IsInstr(t), an.NewGates().AddInstr(sink)); hit != nil {
+			return false
+		}
+	}
+	normalReturn := func(i ssa.Instruction) bool {
+		_, isRet := i.(*ssa.Return)
+		return isRet && i.Block().Comment != "recover"
+	}
+	hit, _ := an.PathTo(par, sink, normalReturn, an.NewGates().AddInstr(trues...))
+	return hit == nil
 }
